@@ -55,7 +55,7 @@ Record LibcStrictSpec (fmt_d : Z -> bytes) (fmt_g15 fmt_g17 : dbl -> bytes) : Pr
   (* "%d" of an int is an RFC 8259 number *)
   lss_d_rfc : forall z, int_range z = true -> rfc_number (fmt_d z) = true;
   (* "%1.15g" / "%1.17g" of a finite IEEE binary64 double ([valid_dbl]: SpecFloat's validity predicate,
-     i.e. a value a C double can hold) is an RFC 8259 number (the grammar admits e+20 / e-07) *)
+     i.e. a value a C double can hold) is an RFC 8259 number (the grammar allows e+20 / e-07) *)
   lss_g15_rfc : forall d, is_finite d = true -> valid_dbl d = true -> rfc_number (fmt_g15 d) = true;
   lss_g17_rfc : forall d, is_finite d = true -> valid_dbl d = true -> rfc_number (fmt_g17 d) = true;
   (* all three fit print_number's 26-byte scratch buffer with the terminator *)
